@@ -234,10 +234,10 @@ def obs_runs(case):
         data = S if cut < 0 else S[:cut]
         r = rd.run_reader(data, filt=pl.get("filter", 7), quit=pl.get("quit", 1), parsing=bool(pl.get("parsing", 1)),
                           handler=bool(pl.get("handler", 1)), msgmode=mm, validate=va, pbf=pbf,
-                          keep_reads=bool(pl.get("reads", 0)), labelmsm=lm, bursts=case.get("bursts", ()), kind=case.get("streamkind", "min"),
+                          keep_reads=bool(pl.get("reads", 0)), labelmsm=lm, bursts=case.get("bursts", ()), pauses=case.get("pauses", ()), kind=case.get("streamkind", "min"),
                           poll=case["prop"] == "C07")  # C07 speaks of successive read() calls: a polling caller asks again after (None, None)
         r["cut"] = cut
-        r["reads"] = 1 if pl.get("reads", 0) and case.get("streamkind") != "sock" else 0
+        r["reads"] = 1 if pl.get("reads", 0) and case.get("streamkind") != "sock" and not case.get("pauses") else 0
         raw_runs.append(r)
     same = -1
     if case["prop"] == "C12" and len(raw_runs) >= 3:
